@@ -96,22 +96,28 @@ def _sched_run(evs, nsh, cancel_pos, cancel_idx):
     return w
 
 
-@obligation(params={'e0': (1, 4), 'e1': (1, 4), 'e2': (0, 10), 'pos': (1, 3),
-                    'idx': (0, 1)},
-            partition={'quick': ('e2', 11), 'thorough': ('e2', 11)},
+E2 = [0, 9, 1, 7, 10, 3, 5]     # third event: none / completion / arrivals
+
+
+@obligation(params={'e01': (0, 63), 'e2': (0, 6), 'pos': (1, 3),
+                    'idx': (0, 2)},
+            shapes={'quick': [{'_ranges': {'e2': (0, 3)}}], 'thorough': [{}]},
+            partition={'quick': ('e01', 16), 'thorough': ('e01', 32)},
             timeout={'quick': 300, 'thorough': 900},
             funcs=c04.FUNCS,
             bounds='1 node x 4 cores; two arrivals (shapes 1x1 1x2 2x2 3x2, '
-                   'priority 0) then a third event (none / arrival / '
-                   'completion); a cancel request for task 0 or 1 after event '
-                   '1, 2 or 3; the same history is run without the request',
+                   'priority 0 or 1) then a third event (none / completion / '
+                   'one of 3 arrivals; thorough 2 more); a cancel request for task 0, 1 or 2 after '
+                   'event 1, 2 or 3; the same history is run without the '
+                   'request',
             stubs=['see C04'])
-def h_sched_cancel(e0, e1, e2, pos, idx):
+def h_sched_cancel(e01, e2, pos, idx):
     """scheduler: named waiting task is canceled once, bystander unaffected"""
     nsh = 4
-    evs = [conc(e0, 1, 4), conc(e1, 1, 4), conc(e2, 0, 10)]
-    pos, idx = conc(pos, 1, 3), conc(idx, 0, 1)
-    if idx >= pos and pos < 2: return          # task must have arrived
+    e01 = conc(e01, 0, 63)
+    evs = [1 + e01 // 8, 1 + e01 % 8, E2[conc(e2, 0, 6)]]
+    pos, idx = conc(pos, 1, 3), conc(idx, 0, 2)
+    if idx >= pos: return                      # task must have arrived
     # third event: 0 none, 1..4 arrival prio 0, 5..8 arrival prio 1, 9/10 completion
     w1 = _sched_run(evs, nsh, pos, idx)
     if w1 is None: return
@@ -125,6 +131,11 @@ def h_sched_cancel(e0, e1, e2, pos, idx):
     # named task: canceled iff it was waiting when the request arrived
     check(rep1['canceled'] <= 1, 'named task canceled %s times',
           rep1['canceled'])
+    if pos == len(evs) and rep0['started'] == 0 and rep0['failed'] == 0:
+        # it was still waiting when the (last) request came: must be canceled
+        check(rep1['canceled'] == 1 and not w1.waiting(uid), 'named task %s '
+              'was waiting at the request but is not canceled: %s waiting=%s',
+              uid, rep1, w1.waiting(uid))
     if rep1['canceled']:
         check(w1.waiting(uid) == 0, 'canceled task still in the wait pool')
         check(rep1['started'] == 0, 'canceled task was also started')
@@ -207,3 +218,37 @@ def h_exec_cancel(sw1, sw2, ebp, named_first, B=2):
           sb['final_adv'] == s0['final_adv'], 'bystander hand-over differs: %s '
           'vs %s without the request', sb, s0)
     check('ta' not in ex1._tasks and 'tb' not in ex1._tasks, 'task left behind')
+
+
+# ------------------------------------------------------------------------------
+@obligation(params={'sw1': (0, c07.M2), 'cancel_first': 'bool'},
+            partition={'quick': ('sw1', 31), 'thorough': ('sw1', 61)},
+            timeout={'quick': 300, 'thorough': 900},
+            funcs=c07.FUNCS,
+            bounds='one task arrives at the executor; a cancel request for it '
+                   'is handled by the control thread before, during (one '
+                   'pre-emption at any of the first 60 yield points) or after '
+                   'the launch; the process does not exit on its own',
+            stubs=['see C07'])
+def h_exec_cancel_during_launch(sw1, cancel_first):
+    """a cancel arriving while the task is being launched is still enacted"""
+    sw  = c07._switches(sw1, 0, c07.M2)
+    env = X.Env(0, 0)
+    ex  = X.mk_popen(env, 'none', watch_iters=3)
+    t   = X.mk_xtask('t0')
+    threads = [('main', X.CORO['work'](ex, [t])),
+               ('control', X.CORO['_control_cb'](ex, 'ctl',
+                                                 X.cancel_msg(['t0']))),
+               ('watcher', X.CORO['_watch'](ex))]
+    if cancel_first:
+        threads = [threads[1], threads[0], threads[2]]
+    sch = C.Coop(threads, switch_at=sw)
+    sch.run()
+    # the process is still alive unless it was killed
+    alive = [p for p in env.procs.values() if not p.exited and not p.killed]
+    c07._finish(ex, env)
+    reach()
+    s = X.check_exactly_once(ex, 't0')
+    tgt = s['handover_stageout'][0][1] if s['handover_stageout'] else None
+    check(not alive and tgt == rps.CANCELED, 'cancel request during launch '
+          'was not enacted: process alive=%s, outcome %s', bool(alive), tgt)
